@@ -2,7 +2,7 @@
 (* Trace validation for the cluster artifacts.  Events are written by the executor (harness/c12); every verdict in them
    is what the real code answered, every other field is a fact about the input:
      {"ev":"Reset","sid":k,"src":"create"|"fort","art":"lock"|"def","ver":"v1.x.0","n","t","v","net","amounts":[ETH],
-      "comp","gas","fee":[40 hex digits],"wd":[..],"seed"}
+      "comp","gas","fee":[40 hex digits],"wd":[..],"seed","flaw":"none"|<a flaw the writer built in>}
      {"ev":"Create","ok":b}                   `charon create cluster` ran / the NewForT artifact was written
      {"ev":"Load","node":i,"ok":b,"same":b,"view":{...}}   file of node i unmarshalled; same: all node directories
                                               hold the identical file; view: what the loaded object says
@@ -24,13 +24,15 @@ tvars == <<vars, tr, l>>
 R == Trace[1]
 CfgOf(r) == [src |-> r.src, art |-> r.art, ver |-> VerIdx(r.ver), n |-> r.n, t |-> r.t, v |-> r.v, net |-> r.net,
              amounts |-> r.amounts, comp |-> r.comp, gas |-> r.gas, fee |-> r.fee, wd |-> r.wd,
-             signed |-> r.src = "fort" /\ VerIdx(r.ver) >= 3]
+             signed |-> r.src = "fort" /\ VerIdx(r.ver) >= 3, flaw |-> r.flaw]
 TraceInit == TrInit /\ InitWith(CfgOf(R))
 TReset == IsEvent("Reset") /\ l = 1 /\ UNCHANGED vars
 TCreate == IsEvent("Create") /\ Ev.ok /\ Create
 TLoad == IsEvent("Load") /\ Ev.ok /\ Ev.same /\ Load(Ev.view)
 TVerify == /\ IsEvent("Verify") /\ cur.state = "pristine"
            /\ Ev.hashes = "ok" /\ Ev.sigs = "ok" /\ Verify
+\* a flawed artifact: at least one of the two verifications refuses it
+TVerifyFlawed == /\ IsEvent("Verify") /\ ~(Ev.hashes = "ok" /\ Ev.sigs = "ok") /\ VerifyFlawed
 TLeaves == /\ IsEvent("Leaves") /\ phase \in {"loaded", "verified"}
            /\ SeqToSet(Ev.paths) = LeafPaths(V, cfg.art) /\ UNCHANGED vars
 TKeystores == /\ IsEvent("Keystores") /\ Ev.ok /\ Keystores(Ev.node + 1)
@@ -56,12 +58,13 @@ TVerifyT == /\ IsEvent("Verify") /\ cur.state = "loaded"
             /\ \/ VerifyT(Observed)
                \/ /\ Padded /\ cur' = [cur EXCEPT !.state = "done"] /\ verdict' = Observed
                   /\ UNCHANGED <<cfg, phase, lk, obs>>
-TEnd == IsEvent("End") /\ l = TLen /\ cur.state \in {"pristine", "done"} /\ UNCHANGED vars
-TraceNext == TReset \/ TCreate \/ TLoad \/ TVerify \/ TLeaves \/ TKeystores \/ TCombine \/ TDeposits
+TEnd == /\ IsEvent("End") /\ l = TLen /\ cur.state \in {"pristine", "done"}
+        /\ (cfg.flaw # "none" => verdict = "detected") /\ UNCHANGED vars
+TraceNext == TReset \/ TCreate \/ TLoad \/ TVerify \/ TVerifyFlawed \/ TLeaves \/ TKeystores \/ TCombine \/ TDeposits
              \/ TTamper \/ TLoadT \/ TVerifyT \/ TEnd
 TraceSpec == TraceInit /\ [][TraceNext]_tvars
 Mark == /\ CheckInv("TamperEvident", TamperEvident \/ Padded) /\ CheckInv("ValuePreserved", ValuePreserved)
         /\ CheckInv("ShareConsistency", ShareConsistency) /\ CheckInv("CombineRule", CombineRule)
-        /\ CheckInv("TypeOK", TypeOK)
+        /\ CheckInv("FlawRejected", FlawRejected) /\ CheckInv("TypeOK", TypeOK)
         /\ HWMark
 ====
